@@ -404,12 +404,18 @@ func inferFunc(pkg *Package, fn *internal.Elem, sig *types.Signature, targs []ty
 		case *inferFuncType:
 			xlist[i].typ = t.typ
 			if tp := t.typ.TypeParams(); tp != nil {
+				if sharesTypeParam(tparams[:n], tp) {
+					return nil, nil, errSelfGenericArg(arg)
+				}
 				for i := 0; i < tp.Len(); i++ {
 					tparams = append(tparams, tp.At(i))
 				}
 			}
 		case *types.Signature:
 			if tp := t.TypeParams(); tp != nil {
+				if sharesTypeParam(tparams[:n], tp) {
+					return nil, nil, errSelfGenericArg(arg)
+				}
 				for i := 0; i < tp.Len(); i++ {
 					tparams = append(tparams, tp.At(i))
 				}
@@ -422,6 +428,24 @@ func inferFunc(pkg *Package, fn *internal.Elem, sig *types.Signature, targs []ty
 	}
 	typ, err := types.Instantiate(pkg.cb.ctxt, sig, targs[:n], true)
 	return targs, typ, err
+}
+
+// sharesTypeParam reports whether a generic function argument has a type parameter of the
+// function being called, i.e. the generic function is passed to itself (f(f)). Unifying a type
+// parameter with a type that mentions it never terminates, and no such call is valid Go.
+func sharesTypeParam(own []*types.TypeParam, tp *types.TypeParamList) bool {
+	for i := 0; i < tp.Len(); i++ {
+		for _, t := range own {
+			if t == tp.At(i) {
+				return true
+			}
+		}
+	}
+	return false
+}
+
+func errSelfGenericArg(arg *internal.Elem) error {
+	return fmt.Errorf("cannot use generic function %s without instantiation", exprString(arg.Val))
 }
 
 func checkInferArgs(pkg *Package, fn *internal.Elem, sig *types.Signature, args []*internal.Elem, flags InstrFlags) ([]*internal.Elem, error) {
